@@ -177,4 +177,45 @@ theorem renders_ex10 : RendersTop pf0 ex10 ts10 := by
 example : ∃ e', parseExprEntry pf0 (withPos 7 (ts10 ++ [tEOF])) = .ok e' ∧ erase e' = erase ex10 :=
   parse_complete_redundant_parens pf0 ex10 ts10 _ renders_ex10 (withPos_carries 7 _)
 
+/-! `?:` shares the lowest level with the ternary and associates to the RIGHT (/repo 62bcb15) -/
+
+/-- `$a ?: $b ? 1 : 2` is `$a ?: ($b ? 1 : 2)`: printed without parentheses -/
+def ex11 : Expr := .bin .elvis 0 (v 97) (.tern 0 (v 98) (i 1) (i 2))
+/-- `$a ?: $b ?: $c` nests to the right -/
+def ex12 : Expr := .bin .elvis 0 (v 97) (.bin .elvis 0 (v 98) (v 99))
+/-- a left-nested `?:` is printed with parentheses: `($a ?: $b) ?: $c` -/
+def ex13 : Expr := .bin .elvis 0 (.bin .elvis 0 (v 97) (v 98)) (v 99)
+/-- a `?:` as the condition of a ternary is parenthesised, as its first branch it is not: `($a ?: $b) ? $c ?: $d : $e` -/
+def ex14 : Expr := .tern 0 (.bin .elvis 0 (v 97) (v 98)) (.bin .elvis 0 (v 99) (v 100)) (v 101)
+/-- the right operand of `?:` extends as far as possible: `$a ?: $b + 1` -/
+def ex15 : Expr := .bin .elvis 0 (v 97) (.bin .add 0 (v 98) (i 1))
+
+example : printExpr ff0 ex11 = [36, 97, 32, 63, 58, 32, 36, 98, 32, 63, 32, 49, 32, 58, 32, 50] := by decide   -- $a ?: $b ? 1 : 2
+example : printExpr ff0 ex12 = [36, 97, 32, 63, 58, 32, 36, 98, 32, 63, 58, 32, 36, 99] := by decide            -- $a ?: $b ?: $c
+example : printExpr ff0 ex13 = [40, 36, 97, 32, 63, 58, 32, 36, 98, 41, 32, 63, 58, 32, 36, 99] := by decide    -- ($a ?: $b) ?: $c
+example : printExpr ff0 ex14 = [40, 36, 97, 32, 63, 58, 32, 36, 98, 41, 32, 63, 32, 36, 99, 32, 63, 58, 32, 36, 100, 32, 58, 32, 36, 101] := by decide
+example : printExpr ff0 ex15 = [36, 97, 32, 63, 58, 32, 36, 98, 32, 43, 32, 49] := by decide                     -- $a ?: $b + 1
+
+example : roundTrip ex11 = some (printExpr ff0 ex11) := by decide +kernel
+example : roundTrip ex12 = some (printExpr ff0 ex12) := by decide +kernel
+example : roundTrip ex13 = some (printExpr ff0 ex13) := by decide +kernel
+example : roundTrip ex14 = some (printExpr ff0 ex14) := by decide +kernel
+example : roundTrip ex15 = some (printExpr ff0 ex15) := by decide +kernel
+
+/-- the unparenthesised tokens `$a ?: $b ?: $c` are read as the RIGHT-nested tree, not the left-nested one -/
+example : (match parseExprEntry pf0 (withPos 0 (toks ff0 ex12 ++ [tEOF])) with
+    | .ok e' => some (printExpr ff0 (erase e') == printExpr ff0 ex12, printExpr ff0 (erase e') == printExpr ff0 ex13)
+    | .error _ => none) = some (true, false) := by decide +kernel
+
+theorem canon_elvis : Canon ff0 pf0 ex11 ∧ Canon ff0 pf0 ex13 ∧ Canon ff0 pf0 ex14 := by
+  simp only [ex11, ex13, ex14, i, v, Canon, CanonAL]
+  decide
+
+example : ∃ e', parseExprEntry pf0 (withPos 0 (toks ff0 ex11 ++ [tEOF])) = .ok e' ∧ erase e' = erase ex11 :=
+  print_parse_roundtrip_tokens ff0 pf0 ex11 canon_elvis.1 _ (withPos_carries 0 _)
+example : ∃ e', parseExprEntry pf0 (withPos 0 (toks ff0 ex13 ++ [tEOF])) = .ok e' ∧ erase e' = erase ex13 :=
+  print_parse_roundtrip_tokens ff0 pf0 ex13 canon_elvis.2.1 _ (withPos_carries 0 _)
+example : ∃ e', parseExprEntry pf0 (withPos 0 (toks ff0 ex14 ++ [tEOF])) = .ok e' ∧ erase e' = erase ex14 :=
+  print_parse_roundtrip_tokens ff0 pf0 ex14 canon_elvis.2.2 _ (withPos_carries 0 _)
+
 end SoyVerif.Inst.C17
